@@ -149,7 +149,9 @@ def stepEv (st : St) (ws : List String) : St × String :=
       | some i, some (k, slot) =>
         match st.net.wire[i]? with
         | some f =>
-          if f.dst == none || f.dst == some Elvis.Gen.Arp.broadcastMac || f.dst == some tomac then
+          -- `Arp::demux` parses the bytes: the model's parser must recover the packet
+          if (match fromBytes bytes with | .ok p => p != f.pkt | .error _ => true) then (st, "parse-mismatch")
+          else if f.dst == none || f.dst == some Elvis.Gen.Arp.broadcastMac || f.dst == some tomac then
             (padSeen { st with net := step st.net (.deliver i k slot) }, "ok")
           else (st, "misdelivered")
         | none => (st, "no-such-frame")
